@@ -1,5 +1,28 @@
-(* C18 — property theorems (bootstrap stage; see DESIGN.md section 6). *)
-From Verif Require Import Inflate.
-Theorem C18_spec_inflater_runs : status (inflate [] [3;0]) = Done /\ out (inflate [] [3;0]) = [].
-Proof. vm_compute. split; reflexivity. Qed.
-Print Assumptions C18_spec_inflater_runs.
+(* C18 — property theorems.  The accelerated levels replace three routines by assembly: the match
+   finder (levels >= 1), the token/byte packers (levels 3, 4) and the decode loop (levels 3, 4).  The
+   writer theorems are proved for ANY match finder whose answers pass the contract check
+   (Oracle.v); the run-time correspondence evaluates that check on every recorded call, re-runs the
+   model with the recorded answers and compares the bytes with the implementation's (which also
+   covers the assembly packers).  The decode loop is compared with the reader model and across
+   levels case by case.  Assembly itself is not modelled (DESIGN.md 9).
+   Only statements, each closed by `exact`, followed by Print Assumptions. *)
+From Verif Require Import OracleSpec OracleProofs.
+Open Scope N_scope.
+
+Theorem C18_contract_check_sound : call_ok_b_sound_statement.
+Proof. exact OracleProofs.call_ok_b_sound. Qed.
+Print Assumptions C18_contract_check_sound.
+
+Theorem C18_roundtrip_any_match_finder : oracle_C01_statement.
+Proof. exact OracleProofs.oracle_C01. Qed.
+Print Assumptions C18_roundtrip_any_match_finder.
+
+Theorem C18_flush_any_match_finder : oracle_C10_statement.
+Proof. exact OracleProofs.oracle_C10. Qed.
+Print Assumptions C18_flush_any_match_finder.
+
+(* the generalisation is conservative: with the model's own match finder as the oracle the run is
+   the model's run *)
+Theorem C18_oracle_refines : oracle_refines_statement.
+Proof. exact OracleProofs.oracle_refines. Qed.
+Print Assumptions C18_oracle_refines.
